@@ -227,6 +227,16 @@ def cases(tier, seed):
         c = dict(kind="interp", series=0, detectors="waves", **row)
         yield _fill(c, seed, i)
 
+    # objects with a history: energy / cutoff edited after the S-matrix object was first used
+    for i, (hist, entry, pot) in enumerate([("energy", "build.reduce", "atoms"), ("energy", "reduce", "none"),
+                                            ("cutoff", "build.reduce", "none"), ("cutoff", "scan", "atoms")] if tier == "quick" else
+                                           [(h, e, p) for h in ("energy", "cutoff") for e in ("reduce", "scan", "build.reduce")
+                                            for p in ("none", "atoms", "fp_nomean")]):
+        c = dict(kind="match", interpolation=[1, 1], grid=GRIDS[i % len(GRIDS)], energy=ENERGIES[(i + 1) % len(ENERGIES)],
+                 potential=pot, aberration=["defocus", "none"][i % 2], aperture="same_soft", series=0, scan="grid",
+                 detectors="waves+annular", downsample=False, entry=entry, chunking="auto", history=hist)
+        yield _fill(c, seed, 1000 + i)
+
     # SMatrixArray.scan (the array-level scan entry), lazy and eager
     for i, (pot, ab) in enumerate([("atoms", "none"), ("none", "defocus")] if tier == "quick" else
                                   [(p, a) for p in ("none", "atoms", "fp_nomean") for a in ("none", "defocus", "mixed")]):
@@ -400,6 +410,20 @@ def _s_matrix(case, potential):
         ds = _downsample_angle(case)
     kw = dict(semiangle_cutoff=case["cutoff"], energy=case["energy"], interpolation=tuple(case["interpolation"]),
               downsample=ds)
+    hist = case.get("history")
+    if hist:
+        # the object is created with another value, used once, and then edited to the value of the case: the property is
+        # about the object as it stands, whatever its history
+        first = dict(kw)
+        first["energy" if hist == "energy" else "semiangle_cutoff"] *= (0.5 if hist == "energy" else 0.7)
+        s = abtem.SMatrix(extent=tuple(case["extent"]), gpts=tuple(case["gpts"]), **first) if potential is None \
+            else abtem.SMatrix(potential=potential, **first)
+        _ = len(s), s.wave_vectors.shape
+        if hist == "energy":
+            s.energy = kw["energy"]
+        else:
+            s.semiangle_cutoff = kw["semiangle_cutoff"]
+        return s
     if potential is None:
         return abtem.SMatrix(extent=tuple(case["extent"]), gpts=tuple(case["gpts"]), **kw)
     return abtem.SMatrix(potential=potential, **kw)
